@@ -246,4 +246,25 @@ theorem lrRd_spec {s : Cow.St} {t : Tid} {x : Side} {l : St} (h : Cow.lrRd s t x
   obtain ⟨c, h1, h2, _⟩ := step_rd h
   exact ⟨Deleg.of_step h, same_of_quiet rfl h, c, h1, h2⟩
 
+/-! ### exact positions inside the read acquisition (used to count the reader's steps) -/
+theorem step_pre_ldCL_exact {s s' : St} {t : Tid} {v : Side} (hk : lk (s.pc t) = .pre) (hs : step s t (.ldCL v) = some s') :
+    s.pc t = .rdCalled ∧ s'.pc t = .rdCL v := by
+  cases hp : s.pc t <;> simp [lk, hp] at hk <;> simp [step, hp, Pc.post] at hs
+  obtain ⟨_, rfl⟩ := hs; simp
+
+theorem step_pre_inc_exact {s s' : St} {t : Tid} {c : Side} {old : Nat} (hk : lk (s.pc t) = .pre)
+    (hs : step s t (.inc c old) = some s') : s.pc t = .rdCL c ∧ s'.pc t = .rdInc c := by
+  cases hp : s.pc t <;> simp [lk, hp] at hk <;> simp [step, hp, Pc.post] at hs
+  obtain ⟨⟨rfl, _⟩, rfl⟩ := hs; simp
+
+theorem lrGot_exact {s : Cow.St} {t : Tid} {k : Nat} {x : Side} {l : St} (hk : lk (s.lr.pc t) = .pre)
+    (h : Cow.lrGot s t k x = some l) : ∃ c, s.lr.pc t = .rdInc c ∧ l.pc t = .rdHold c x := by
+  simp only [Cow.lrGot, Option.bind_eq_some_iff] at h
+  obtain ⟨l1, h1, h2⟩ := h
+  cases hp : s.lr.pc t <;> simp [lk, hp] at hk <;> simp [step, hp, Pc.post] at h1
+  obtain ⟨_, rfl⟩ := h1
+  rename_i c _
+  simp [step] at h2
+  subst h2; exact ⟨c, rfl, by simp⟩
+
 end ConcVerif.LR
